@@ -48,7 +48,7 @@ func collectComparators(p *Prog) []cmpFn {
 			if full != "sort.Slice" && full != "sort.SliceStable" || len(call.Args) != 2 {
 				return true
 			}
-			lit, ok := ast.Unparen(call.Args[1]).(*ast.FuncLit)
+			lit, ok := comparatorLit(fn, call.Args[1])
 			if !ok {
 				out = append(out, cmpFn{fn.Name + " " + full + "(" + exprStr(call.Args[0]) + ")", call, nil, nil, nil, fn})
 				return true
@@ -582,4 +582,25 @@ func (e *cmpEval) evalPredicateCall(call *ast.CallExpr, env *cmpEnv) (res, ok, h
 		return false, false, true
 	}
 	return r, true, true
+}
+
+// comparatorLit: the function literal given as a comparator, written in place or bound
+// once to a local (less := func(i, j int) bool {…}; sort.Slice(xs, less)).
+func comparatorLit(fn *Func, arg ast.Expr) (*ast.FuncLit, bool) {
+	a := ast.Unparen(arg)
+	if lit, ok := a.(*ast.FuncLit); ok {
+		return lit, true
+	}
+	if id, ok := a.(*ast.Ident); ok {
+		if o := fn.Info().ObjectOf(id); o != nil {
+			for f := fn; f != nil; f = f.Parent {
+				if def := f.SingleDef(o); def != nil {
+					if lit, ok := ast.Unparen(def).(*ast.FuncLit); ok {
+						return lit, true
+					}
+				}
+			}
+		}
+	}
+	return nil, false
 }
